@@ -179,5 +179,37 @@
             }
         };
     }
-    vk_varlen!(code_string_len3, String, |a| String::from_utf8(vec![a[0], a[1], a[2]]).unwrap(), |s| s.as_bytes());
     vk_varlen!(code_bytes_len3, bytes::Bytes, |a| bytes::Bytes::from(vec![a[0], a[1], a[2]]), |s| &s[..]);
+
+    /// String::encode (decode's UTF-8 validation is out of CBMC's reach here): length prefix + bytes, exactly
+    /// estimated_size bytes, size-limit error for a destination that cannot hold the whole body
+    #[kani::proof]
+    #[kani::unwind(12)]
+    #[kani::stub(crate::error::Error::with_context, vk_with_context_stub)]
+    #[kani::stub(crate::error::Error::with_source, vk_with_source_stub)]
+    #[kani::stub(std::backtrace::Backtrace::capture, vk_bt_stub)]
+    fn code_string_encode_len3() {
+        let a: [u8; 3] = kani::any();
+        kani::assume(a[0] < 128 && a[1] < 128 && a[2] < 128);
+        let x: String = unsafe { String::from_utf8_unchecked(vec![a[0], a[1], a[2]]) };
+        assert!(x.estimated_size() == 8 + 3, "[estimated_size_is_length_prefix_plus_bytes]");
+        let mut buf = [0xA5u8; 14];
+        {
+            let mut w = &mut buf[..];
+            let r = x.encode(&mut w);
+            assert!(r.is_ok(), "[encode_into_large_enough_buffer_succeeds]");
+            assert!(w.len() == 14 - 11, "[encode_writes_exactly_estimated_size_bytes]");
+            std::mem::forget(r);
+        }
+        assert!(buf[0] == 3 && buf[1] == 0 && buf[7] == 0, "[length_prefix_is_le_usize]");
+        assert!(buf[8] == a[0] && buf[9] == a[1] && buf[10] == a[2] && buf[11] == 0xA5, "[payload_follows_prefix_and_frame]");
+        let mut small = [0u8; 10];
+        {
+            let mut w = &mut small[..];
+            match x.encode(&mut w) {
+                Ok(()) => assert!(false, "[short_buffer_is_never_ok]"),
+                Err(e) => { assert!(e.kind() == ErrorKind::BufferSizeLimit, "[short_buffer_is_size_limit_error]"); std::mem::forget(e); }
+            }
+        }
+        std::mem::forget(x);
+    }
